@@ -109,7 +109,7 @@ inline std::vector<Interval> lattice_itvs() {
 inline IntervalVector rand_box(Rng& r, int n, int pct_empty = 3) {
   IntervalVector v(n);
   if ((int)r.below(100) < pct_empty) { v.set_empty(); return v; }
-  for (int i = 0; i < n; i++) v[i] = rand_itv(r, 0);
+  for (int i = 0; i < n; i++) { do { v[i] = rand_itv(r, 0); } while (v[i].is_empty()); }
   return v;
 }
 
